@@ -270,7 +270,7 @@ class Progress:
     def set_conds(self, conds):
         """path conditions of the cycle being analysed (used by conditional facts)"""
         self.cur_conds = tuple(conds)
-        la, ne = set(), set()
+        la, ne, lt = set(), set(), set()
         for c, v in conds:
             t = c
             neg = False
@@ -290,8 +290,12 @@ class Progress:
             elif t[0] == 'bin' and t[1] in ('Ne', 'Eq'):
                 if (t[1] == 'Ne' and v == 1) or (t[1] == 'Eq' and v == 0):
                     ne.add((t[2], t[3]))
-        self.LA, self.NE = la, ne
-        self.cond_key = (frozenset(la), frozenset(ne))
+            elif t[0] == 'bin' and t[1] == 'Lt' and v == 1:
+                lt.add((t[2], strip_ref(t[3])))
+            elif t[0] == 'bin' and t[1] == 'Le' and v == 0:
+                lt.add((t[3], strip_ref(t[2])))
+        self.LA, self.NE, self.LT = la, ne, lt
+        self.cond_key = (frozenset(la), frozenset(ne), frozenset(lt))
 
     def base_of(self, body, l):
         return ('param', l) if 1 <= l <= body.arg_count else ('uninit', l)
@@ -353,6 +357,9 @@ class Progress:
             return self.sign(t[2], body) if t[0] == 'cast' else self.sign(t[2], body)
         if t[0] in ('len',):
             return 'nonneg'
+        if t[0] == 'field' and t[1][0] == 'downcast' and t[1][1][0] == 'call' and strip_generics(t[1][1][1]).split('::')[-1] in ('find', 'rfind', 'position', 'rposition') \
+                and t[1][1][1].startswith(('core::str::', 'core::iter::', 'core::slice::')):
+            return 'nonneg'     # the usize payload of a std search result
         return None
 
     def sign_closure(self, clo, opt, body):
@@ -480,6 +487,16 @@ class Progress:
             if key in self.rel_cache:
                 return self.rel_cache[key]
         r = self.rel_(t, base, body, depth)
+        if r == GE and self.NE and depth < 50:
+            # t >= base only; a comparison on this path found t different from some v with base <= v <= t: then t > v >= base
+            for p_, q_ in self.NE:
+                for u, v in ((p_, q_), (q_, p_)):
+                    if u != t or r == GT:
+                        continue
+                    if v == base:
+                        r = GT
+                    elif self.rel(v, base, body, depth + 100) != UNK and self.rel_(t, v, body, depth + 100) in (GE, GT):
+                        r = GT
         if memo and not self.hyp:
             self.rel_cache[key] = r
         return r
@@ -511,6 +528,11 @@ class Progress:
                     best = GT
             if best != UNK:
                 return best
+        if k == 'call' and strip_generics(t[1]).split('::')[-1] == 'len' and getattr(self, 'LT', None):
+            # a comparison on this path found X < len: the length exceeds whatever X is at least
+            for x, lent in self.LT:
+                if lent == t and self.rel(x, base, body, depth + 1) != UNK:
+                    return GT
         if k == 'widen':
             # ('widen', fpath, h, l, prev)
             if self.monotone(t[1], t[2], t[3]):
